@@ -31,7 +31,7 @@ def run_sequence(repo, fixed, fix_psi, names):
     return T, ip, mo
 
 
-def same_atoms_diff(repo, fixed, fix_psi, seq, zero_first=False, zero_at=None):
+def same_atoms_diff(repo, fixed, fix_psi, seq, zero_first=False, zero_at=None, close=False):
     """Compare refreshed operators with freshly built ones *in one atom table*.
 
     zero_first: the first potential of the sequence is identically zero.  Only matters if the builders test the *values*
@@ -45,6 +45,20 @@ def same_atoms_diff(repo, fixed, fix_psi, seq, zero_first=False, zero_at=None):
         state["asked"] += 1
         return state["nonzero"]
     ip.ext_overrides["numpy.any"] = any_
+    # comparisons of two potentials inside the operators: exact ones are decided by identity of the symbolic arrays; tolerant
+    # ones (allclose / isclose) hold for identical arrays and - in the `close` scenario - also for two different potentials
+    # that lie within the tolerance of each other
+    state["tolerant_asked"] = 0
+
+    def exact_(ip_, a, k):
+        return repr(a[0]) == repr(a[1])
+
+    def tolerant_(ip_, a, k):
+        state["tolerant_asked"] += 1
+        return True if close else repr(a[0]) == repr(a[1])
+    ip.ext_overrides["numpy.array_equal"] = exact_
+    ip.ext_overrides["numpy.array_equiv"] = exact_
+    ip.ext_overrides["numpy.allclose"] = tolerant_
     ip.ext_overrides["numpy.count_nonzero"] = lambda ip_, a, k: any_(ip_, a, k)
 
     def mk():
@@ -63,6 +77,7 @@ def same_atoms_diff(repo, fixed, fix_psi, seq, zero_first=False, zero_at=None):
     ip.call_method(b, "set_link_exponents", [Field(seq[-1], "edge", comps=2)], {})
     state["nonzero"] = True
     ip.value_tests_asked = state["asked"]
+    ip.tolerant_tests_asked = state["tolerant_asked"]
     out = {}
     for attr in ("psi_gradient", "psi_laplacian"):
         d = mat_diff(a.attrs[attr], b.attrs[attr])
@@ -92,9 +107,15 @@ def check(ctx):
             # longer histories, returns to an earlier potential, and an identically-zero potential at every position
             plan += [(s_, False, None) for s_ in (["A1", "A2", "A1"], ["A1", "A2", "A3", "A1"], ["A1", "A1", "A2", "A2"], ["A1", "A2", "A3", "A4"])]
             plan += [(["A1", "A2", "A3"], False, (1,)), (["A1", "A2", "A3"], False, (2,)), (["A1", "A2", "A3", "A4"], False, (0, 2))]
-        for seq, zero_first, zero_at in plan:
-            desc = desc0 + (", first potential identically zero" if zero_first else "") + (f", potentials {zero_at} identically zero" if zero_at else "")
-            ip, a, b, diffs, le_ok = same_atoms_diff(repo, fixed, fix_psi, seq, zero_first, zero_at)
+        plan = [p_ + (False,) for p_ in plan] + [(["A1", "A2"], False, None, True), (["A1", "A2", "A3"], False, None, True)]
+        for seq, zero_first, zero_at, close in plan:
+            desc = desc0 + (", first potential identically zero" if zero_first else "") + (f", potentials {zero_at} identically zero" if zero_at else "") \
+                + (", consecutive potentials within rtol=1e-5 of each other" if close else "")
+            ip, a, b, diffs, le_ok = same_atoms_diff(repo, fixed, fix_psi, seq, zero_first, zero_at, close)
+            if close and not ip.tolerant_tests_asked:
+                ctx.ob("R10.1", f"the refresh does not compare potentials with a tolerance ({desc0}, {'->'.join(seq)})", True,
+                       detail={"tolerant_tests": 0}, where=f_set.fq, construct=f"tolerance tests in the refresh ({desc0})")
+                continue
             zero_first = zero_first or bool(zero_at)
             if zero_first and not ip.value_tests_asked:
                 # the builders never look at the values of the potential: a zero potential is not a special case
